@@ -103,7 +103,15 @@ def arrays_of(obj: Any) -> List[Tuple[str, np.ndarray]]:
 def snap(obj: Any) -> Tuple[list, list]:
     """Bit-exact snapshot: for every reachable array (path, dtype, shape, bytes); plus the meta list."""
     arrs, meta = reach(obj)
-    return [(p, str(a.dtype), tuple(a.shape), a.tobytes()) for p, a in arrs], list(meta)
+    return [(p, str(a.dtype), tuple(a.shape), _bytes(a)) for p, a in arrs], list(meta)
+
+
+def _bytes(a: np.ndarray) -> bytes:
+    """the exact content of an array; an object array (what mttkrp returns for scipy.sparse factors) holds pointers, so
+    its content is taken from the representation of its entries"""
+    if a.dtype.kind == "O":
+        return repr([repr(x) for x in a.ravel().tolist()]).encode()
+    return a.tobytes()
 
 
 def snap_values(obj: Any, drop_paths=()) -> Tuple[list, list]:
@@ -126,6 +134,8 @@ def snap_diff(a, b) -> Optional[str]:
         if sh != sh2:
             return f"{p or '<array>'}: shape {sh} -> {sh2}"
         if by != by2:
+            if dt == "object":
+                return f"{p or '<array>'}: entries of an object array changed"
             x = np.frombuffer(by, dtype=np.dtype(dt))
             y = np.frombuffer(by2, dtype=np.dtype(dt))
             neq = np.flatnonzero((x.view(np.uint8).reshape(x.size, -1) != y.view(np.uint8).reshape(y.size, -1)).any(axis=1))
@@ -314,27 +324,38 @@ def check_op(
     echo: Optional[Dict[str, Callable[[Any], Any]]] = None,
     again: bool = False,
     deterministic: bool = True,
+    rejected_nt: bool = False,
 ):
     """operands: name -> object, everything the caller hands to the operation (receiver included under
     the name 'self').  ``inplace``: name of the operand that the operation is documented to modify (it is then
     treated as the *result*: it may change, and must end up independent of the other operands).
     ``result_of``: maps the returned value to the part that is subject to the independence clauses.
     ``again`` (round 2, state across calls): the operation is called a second time on the same operands (only when
-    the first call left them bit-identical and the operation is not an in-place one).  The second result must not
+    the first call left them bit-identical and the operation is not an in-place one).  ``rejected_nt``: the cell
+    generates ill-formed requests, so a case that raises is the non-trivial one.  The second result must not
     share memory with the first, must not change when the first is overwritten, and - for ``deterministic``
     operations - must be bit-identical to the first; the remaining clauses are then applied to the second result.
     """
     names = list(operands)
     n_op_arrays = sum(1 for n in names for _, a in arrays_of(operands[n]) if a.size)
-    before = {n: snap(operands[n]) for n in names if n != inplace}
+    before = {n: snap(operands[n]) for n in names}
     try:
         ret = call()
     except Exception as e:  # noqa: BLE001
         # C05 says nothing about whether a value is returned (that is C02/C03/C04/C19 territory); the
         # class of inputs is labelled so that a generator that mostly raises is visible in the evidence
         ctx.label(f"raised:{type(e).__name__}")
-        ctx.nt = False
+        ctx.nt = bool(rejected_nt and n_op_arrays)
         ctx.notes["raised"] = repr(e)[:200]
+        # (round 4, class 12) a rejected request leaves every operand - the receiver of an in-place operation
+        # included - bit for bit as it was
+        for n in names:
+            d = snap_diff(before[n], snap(operands[n]))
+            ctx.check(d is None, f"operand-changed-by-rejected-call:{n}", f"{what} raised {type(e).__name__}, yet {n}: {d}")
+        # (round 4, class 11) an operand presented read-only: numpy refuses the write, which shows that one was attempted
+        if isinstance(e, ValueError) and "read-only" in str(e) and any(
+                not a.flags.writeable for n in names if n != inplace for _, a in arrays_of(operands[n]) if a.size):
+            ctx.check(False, "writes-into-read-only-operand", f"{what}: {e!r}")
         return None
     ctx.label("returned")
     # (1) operands bit-identical
